@@ -137,19 +137,20 @@ Definition tr_argdefs (argdefs : list (name * in_def)) : list (Ast.name * Ast.in
   map (fun f : name * in_def => (fst f, tr_indef (snd f))) argdefs.
 
 Definition n_Query : name := [81; 117; 101; 114; 121]%N.
-Definition n_Int : name := [73; 110; 116]%N.
+(* the result type of f and g: a name reserved for the bridge (not a type of the request's environment) *)
+Definition n_Res : name := [82; 101; 115; 95]%N.
 Definition n_Boolean : name := [66; 111; 111; 108; 101; 97; 110]%N.
 
 (** [site]: "field", "directive", "skip" or "include" *)
 Definition tr_request_schema (E : env) (site_field : bool) (argdefs : list (name * in_def)) : Ast.schema :=
-  let int_t := Ast.StNamed n_Int in
+  let int_t := Ast.StNamed n_Res in
   let fld (a : list (Ast.name * Ast.input_def)) := {| Ast.f_type := int_t; Ast.f_args := a; Ast.f_req := [] |} in
   let q := Ast.TObject [ ([102]%N, fld (if site_field then tr_argdefs argdefs else []));
                           ([103]%N, fld []) ] [] in
   let dir := {| Ast.dd_args := if site_field then [] else tr_argdefs argdefs; Ast.dd_locs := [Ast.LField] |} in
   {| Ast.s_types := Ast.s_types (tr_env E)
                     ++ [ (n_Query, {| Ast.t_req := []; Ast.t_body := q |});
-                         (n_Int, {| Ast.t_req := []; Ast.t_body := Ast.TScalar Ast.SInt |}) ];
+                         (n_Res, {| Ast.t_req := []; Ast.t_body := Ast.TScalar Ast.SInt |}) ];
      Ast.s_query := n_Query; Ast.s_mutation := None; Ast.s_subscription := None;
      Ast.s_directives := [ ([102; 108; 116]%N, dir); ([115; 107; 105; 112]%N, dir); ([105; 110; 99; 108; 117; 100; 101]%N, dir) ];
      Ast.s_meta := []; Ast.s_impls := [] |}.
